@@ -387,6 +387,8 @@ pub fn generate(property: &str, tier: &str, seed: u64, index: u64) -> Plan {
         "C07" => c07(property, seed),
         "C08" => c08(property, tier, seed, index),
         "C09" => c09(property, seed, index),
+        "C10" => c10(property, seed),
+        "C11" => c11(property, seed, index),
         "C12" => c12(property, seed, index),
         "C13" => match index % 8 {
             0 => synctest(property, seed, false, true),
@@ -1174,5 +1176,72 @@ pub fn c09(property: &str, seed: u64, index: u64) -> Plan {
     p.perturb.push(Perturb { node: x, frame: f as i32, mode: PerturbMode::Consistent });
     p.exempt_kinds = 1 << K_CHECKSUM;
     p.horizon_us += ms(3000);
+    p
+}
+
+
+// ------------------------------------------------------------------ C10
+
+/// Three or four peers in rollback mode; one dies; each survivor loses a different amount of
+/// the dying peer's last packets; the links between survivors stay healthy.
+pub fn c10(property: &str, seed: u64) -> Plan {
+    let c = Ch::new(seed, "c10");
+    let mut p = s1(property, "c10", seed, &S1Opts { faults: false, min_peers: 3, max_peers: 4, allow_spectators: false, frames_lo: 100, frames_hi: 300, long_run_pct: 0, ..Default::default() });
+    let peers = p.peers();
+    let v = peers[c.range(&[1], 0, peers.len() as u64 - 1) as usize];
+    let t_kill = c.range(&[2], ms(2000), ms(5000));
+    p.nodes[v].tick.stop_us = Some(t_kill);
+    p.cfg.timeout_ms = *c.pick(&[3], &[2000u64, 2000, 1000, 3000]);
+    p.cfg.notify_ms = 500;
+    let per = 1_000_000 / p.cfg.fps as u64;
+    for n in p.nodes.iter_mut() {
+        // survivors tick regularly at the nominal rate
+        n.tick.period_us = per;
+        n.tick.jitter_us = n.tick.jitter_us.min(per / 2);
+    }
+    for &s in &peers {
+        if s == v {
+            continue;
+        }
+        // the split of the dying peer's last packets
+        let back = if c.chance(&[4, s as u64], 300_000) { 0 } else { c.range(&[5, s as u64], 0, ms(150)) };
+        p.windows.push(Window { from: v, to: s, start_us: t_kill.saturating_sub(back), end_us: t_kill + ms(50), kinds: ALL_KINDS, action: WinAction::Drop });
+    }
+    let max_lat = p.links.iter().map(|l| l.base_us + l.jitter_us).max().unwrap_or(0);
+    let heal = t_kill + ms(p.cfg.timeout_ms) + 2 * max_lat + ms(1200);
+    p.horizon_us = heal + ms(2000);
+    let survivors: Vec<usize> = peers.iter().copied().filter(|&s| s != v).collect();
+    p.oracle.liveness = Some(Liveness { heal_us: heal, deadline_us: heal + ms(2000), min_frames: 3, require_running: false, nodes: survivors, spectator_lag: false });
+    p.oracle.survivor_agreement = true;
+    p
+}
+
+
+// ------------------------------------------------------------------ C11
+
+/// C01's space plus a seeded history of set_input_delay calls: at any tick including before the
+/// first frame, several in one tick, while stalled, different delays per local player.
+pub fn c11(property: &str, seed: u64, index: u64) -> Plan {
+    let c = Ch::new(seed, "c11");
+    let faults = index % 3 != 0;
+    let mut p = s1(property, if faults { "c11" } else { "c11-faultfree" }, seed, &S1Opts { faults, max_peers: 3, allow_lockstep: true, frames_lo: 80, frames_hi: 500, long_run_pct: 3, ..Default::default() });
+    let peers = p.peers();
+    let n_calls = c.range(&[1], 1, 8);
+    let mut t_prev = 0;
+    for j in 0..n_calls {
+        let node = peers[c.range(&[2, j], 0, peers.len() as u64 - 1) as usize];
+        let locals = match &p.nodes[node].kind {
+            NodeKind::Peer { locals } => locals.clone(),
+            _ => unreachable!(),
+        };
+        let handle = locals[c.range(&[3, j], 0, locals.len() as u64 - 1) as usize];
+        let at = match c.range(&[4, j], 0, 9) {
+            0 | 1 => 0,                 // before the first frame
+            2 | 3 => t_prev,            // same tick as the previous call
+            _ => c.range(&[5, j], 0, p.horizon_us),
+        };
+        t_prev = at;
+        p.api.push(ApiCall { node, at_us: at, call: Api::SetDelay { handle, delay: c.range(&[6, j], 0, 6) as usize } });
+    }
     p
 }
